@@ -38,6 +38,8 @@ TablesReasons(e) ==
                        /\ ToSet(e.byNameKinds[i]) = {k \in Kinds : i \in DOMAIN reg[k].byName}
                        /\ Len(e.byNameKinds[i]) = (IF i \in AllNames(reg) THEN 1 ELSE 0)          \* a registered name: in exactly one kind
       THEN {} ELSE {"lookup-by-name"}) \cup
+   \* the JSON listing has exactly one line per registered lint (C14), whatever was refused before
+   (IF Len(e.jsonListing) = Cardinality(AllNames(reg)) /\ ToSet(e.jsonListing) = AllNames(reg) THEN {} ELSE {"json-listing"}) \cup
    \* the deprecated lookups (Registry.ByName / BySource) know the certificate lints, and exactly those
    (IF /\ e.depByName
        /\ \A s \in DOMAIN e.depBySource : e.depBySource[s] = (IF s \in reg["cert"].sources THEN NamesOfSeq(reg["cert"].bySource[s]) ELSE <<>>)
@@ -68,6 +70,8 @@ Reasons(e) == CASE e.ev = "Register" -> RegisterReasons(e)
                 [] e.ev = "Census" -> CensusReasons(e)
                 [] e.ev = "RegisterDup" -> IF e.refused THEN {} ELSE {"duplicate-accepted"}
                 [] e.ev = "Filter" -> FilterReasons(e)
+                \* C01 in this history: a lint registered late is run by the next Lint*Ex of its kind (one result per lint of the kind)
+                [] e.ev = "LateRun" -> IF e.hasResult /\ e.results = e.lints /\ ~e.escaped THEN {} ELSE {"registered-lint-without-result"}
                 [] OTHER -> {}
 TraceInit == l = 1 /\ nrej = 0 /\ reg = EmptyRegistry
 Step == /\ l <= Len(Trace)
